@@ -1430,3 +1430,7 @@ mod tests {
         assert!(ba5 > ba1);
     }
 }
+
+#[cfg(kani)]
+#[path = "/verif/kani/parquet/data_type.rs"]
+mod verif_kani;
